@@ -40,6 +40,9 @@ from ..utils import (
 )
 
 
+MAX_QUEUED_PONGS = 32
+
+
 class ASGIWebsocketState(Enum):
     # Hypercorn supports the ASGI websocket HTTP response extension,
     # which allows HTTP responses rather than acceptance.
@@ -188,6 +191,8 @@ class WSStream:
     ) -> None:
         self.app = app
         self.access_logged = False
+        self.pongs: List[WSProtoEvent] = []
+        self.sending_pongs = False
         self.app_put: Optional[Callable] = None
         self.buffer = WebsocketBuffer(config.websocket_max_message_size)
         self.client = client
@@ -363,7 +368,16 @@ class WSStream:
                     await self.app_put(self.buffer.to_message())
                     self.buffer.clear()
             elif isinstance(event, Ping):
-                await self._send_wsproto_event(event.response())
+                # Answered from a task of its own: sending can have to wait
+                # for the client (HTTP/2 flow control) and that must not
+                # stop the reading of what the client sends meanwhile,
+                # e.g. the very credit that is being waited for.
+                self.pongs.append(event.response())
+                if len(self.pongs) > MAX_QUEUED_PONGS:
+                    self.pongs.pop(0)  # Only the most recent pings need an answer
+                if not self.sending_pongs:
+                    self.sending_pongs = True
+                    self.task_group.spawn(self._send_pongs)
             elif isinstance(event, CloseConnection):
                 if self.connection.state == ConnectionState.REMOTE_CLOSING:
                     # The client has initiated the close, tell the app why
@@ -392,6 +406,10 @@ class WSStream:
             await self.config.log.access(self.scope, response, time() - self.start_time)
 
     async def _send_wsproto_event(self, event: WSProtoEvent) -> None:
+        if isinstance(event, CloseConnection):
+            while len(self.pongs) > 0:
+                # The pings that came before the close are still owed a pong
+                await self._send_wsproto_event(self.pongs.pop(0))
         try:
             data = self.connection.send(event)
         except LocalProtocolError:
@@ -438,6 +456,13 @@ class WSStream:
             self.state = ASGIWebsocketState.HTTPCLOSED
             await self.send(EndBody(stream_id=self.stream_id))
             await self._log_access(self.response)
+
+    async def _send_pongs(self) -> None:
+        try:
+            while len(self.pongs) > 0 and not self.closed:
+                await self._send_wsproto_event(self.pongs.pop(0))
+        finally:
+            self.sending_pongs = False
 
     async def _send_pings(self) -> None:
         while not self.closed:
